@@ -320,6 +320,40 @@ func checkC09(c *Ctx, r *Report) {
 	if nMut < 4 {
 		r4.Fail("pstoreds mutators", token.NoPos, "expected four mutating functions", "")
 	}
+	// setAddrs keeps a lookup index (map from address bytes to entry) over pr.Addrs: an entry removed from the slice
+	// leaves the index on the same path, otherwise a later address of the batch is matched to the orphan and lost
+	if f := r4.need("(*" + dsP + ".dsAddrBook).setAddrs"); f != nil {
+		isIndexMap := func(v ssa.Value) bool {
+			t := v.Type().String()
+			return strings.HasPrefix(t, "map[string]*") && strings.HasSuffix(t, "AddrBookRecord_AddrEntry")
+		}
+		nRem := 0
+		for _, g := range append([]*ssa.Function{f}, allAnon(f)...) {
+			rems := findInstrs(g, func(in ssa.Instruction) bool {
+				st, ok := in.(*ssa.Store)
+				if !ok || !isFieldWrite(in, pbRec+".Addrs") {
+					return false
+				}
+				return derivesFrom(st.Val, func(v ssa.Value) bool {
+					call, isC := v.(*ssa.Call)
+					return isC && (strings.HasPrefix(calleeKey(call), "slices.Delete") || strings.HasPrefix(calleeKey(call), "slices.DeleteFunc"))
+				})
+			})
+			dels := findInstrs(g, func(in ssa.Instruction) bool {
+				call, ok := in.(*ssa.Call)
+				return ok && calleeKey(call) == "builtin.delete" && len(call.Call.Args) == 2 && isIndexMap(call.Call.Args[0])
+			})
+			for _, rm := range rems {
+				nRem++
+				w1, n1 := (&Cut{Fn: g, Target: isInstr(rm), Sep: inSet(dels)}).Run(c)
+				w2, n2 := (&Cut{Fn: g, From: []ssa.Instruction{rm}, Target: isRet, Sep: inSet(dels)}).Run(c)
+				r4.Check(w1 == "" || w2 == "", fnKey(g)+": an entry removed from pr.Addrs is removed from the lookup index too", instrPos(rm), n1+n2+1, "", "the index still maps the evicted address to an orphaned entry: the same address later in the batch is treated as existing and is neither stored nor announced", w1)
+			}
+		}
+		if nRem == 0 {
+			r4.OK("(*dsAddrBook).setAddrs: no removal from pr.Addrs while the index is live", f.Pos(), 1, "")
+		}
+	}
 	if f := r4.need("(*" + dsP + ".dsAddrBook).ClearAddrs"); f != nil {
 		rm := findInstrs(f, func(in ssa.Instruction) bool {
 			return calleeNameIs(in, "Remove") && recvIsField(in.(ssa.CallInstruction), dsP+".dsAddrBook.cache")
@@ -527,6 +561,28 @@ func checkC09(c *Ctx, r *Report) {
 				ok = w == "" && isParamVar(c, callArgs(defs[0].(ssa.CallInstruction))[1], "p")
 			}
 			r7.Check(ok, k+": defer maybeDeleteSignedPeerRecordUnlocked(p) before any change", f.Pos(), 1, "", "a signed record survives the removal of the peer's last address", "")
+		}
+	}
+	// a stored signed record is re-examined afterwards: every insert into signedPeerRecords is followed, before the
+	// function returns, by maybeDeleteSignedPeerRecordUnlocked (called, deferred, or run by a callee on all its paths)
+	for _, f := range c.FnsOfPkg(memP) {
+		ins := findInstrs(f, func(in ssa.Instruction) bool {
+			_, ok := in.(*ssa.MapUpdate)
+			return ok && isFieldWrite(in, mabT+".signedPeerRecords")
+		})
+		for _, i := range ins {
+			mdName := "maybeDeleteSignedPeerRecordUnlocked"
+			w, n := (&Cut{Fn: f, From: []ssa.Instruction{i}, Target: isRet, Sep: func(in ssa.Instruction) bool { return releasesLike(in, mdName) }}).Run(c)
+			// or a deferral registered on every path before the insert
+			if w != "" {
+				defs := findInstrs(f, func(in ssa.Instruction) bool { _, isD := in.(*ssa.Defer); return isD && calleeNameIs(in, mdName) })
+				if len(defs) > 0 {
+					if w2, _ := (&Cut{Fn: f, Target: isInstr(i), Sep: inSet(defs)}).Run(c); w2 == "" {
+						w = ""
+					}
+				}
+			}
+			r7.Check(w == "", fnKey(f)+": a stored signed record is re-examined (dropped if the peer has no address) before returning", instrPos(i), n+1, "", "a signed record is kept for a peer without addresses: it is returned as soon as any address is added, and it shadows records with a lower sequence number", w)
 		}
 	}
 	if f := r7.need(mab("maybeDeleteSignedPeerRecordUnlocked")); f != nil {
